@@ -49,6 +49,7 @@ class TokSite:
     kinds: list[str] | None = None
     stores: dict[str, ast.AST] = field(default_factory=dict)     # for 'retype': field -> value expr
     receiver: str = ""
+    orig_ids: set = field(default_factory=set)                   # ids of the original store value nodes (specialised templates)
 
     @property
     def lineno(self) -> int:
@@ -110,7 +111,110 @@ def token_sites(c: Ctx) -> list[TokSite]:
                         cur = None
                     elif not isinstance(s, ast.Assign):
                         cur = None
+    out = _specialise_templates(c, out)
     out.sort(key=lambda t: (t.func.qual, t.lineno))
+    return out
+
+
+def pe(e: ast.AST | None, env: dict[str, ast.AST]) -> ast.AST | None:
+    """Tiny partial evaluator: substitute names from env and fold string formatting / constant conditionals."""
+    if e is None:
+        return None
+    if isinstance(e, ast.Name) and e.id in env:
+        return pe(env[e.id], {})
+    if isinstance(e, ast.JoinedStr):
+        parts = []
+        for v in e.values:
+            if isinstance(v, ast.Constant):
+                parts.append(v)
+            elif isinstance(v, ast.FormattedValue) and v.format_spec is None and v.conversion == -1:
+                parts.append(pe(v.value, env))
+            else:
+                return e
+        if all(isinstance(p_, ast.Constant) for p_ in parts):
+            return ast.Constant(value="".join(str(p_.value) for p_ in parts))
+        # one IfExp part: distribute
+        for i, p_ in enumerate(parts):
+            if isinstance(p_, ast.IfExp) and all(isinstance(q, ast.Constant) for j, q in enumerate(parts) if j != i):
+                def mk(branch):
+                    b = pe(branch, env)
+                    if not isinstance(b, ast.Constant):
+                        return None
+                    return ast.Constant(value="".join(str((b if j == i else q).value) for j, q in enumerate(parts)))
+                a_, b_ = mk(p_.body), mk(p_.orelse)
+                if a_ is not None and b_ is not None:
+                    return ast.IfExp(test=p_.test, body=a_, orelse=b_)
+        return e
+    if isinstance(e, ast.BinOp) and isinstance(e.op, ast.Add):
+        a_, b_ = pe(e.left, env), pe(e.right, env)
+        if isinstance(a_, ast.Constant) and isinstance(b_, ast.Constant) and isinstance(a_.value, str) and isinstance(b_.value, str):
+            return ast.Constant(value=a_.value + b_.value)
+        return ast.BinOp(left=a_, op=e.op, right=b_)
+    if isinstance(e, ast.UnaryOp) and isinstance(e.op, ast.USub):
+        a_ = pe(e.operand, env)
+        if isinstance(a_, ast.Constant) and isinstance(a_.value, int):
+            return ast.Constant(value=-a_.value)
+        return e
+    if isinstance(e, ast.Compare) and len(e.ops) == 1:
+        a_, b_ = pe(e.left, env), pe(e.comparators[0], env)
+        if isinstance(a_, ast.Constant) and isinstance(b_, ast.Constant):
+            try:
+                op = e.ops[0]
+                v = {ast.Lt: a_.value < b_.value, ast.LtE: a_.value <= b_.value, ast.Gt: a_.value > b_.value, ast.GtE: a_.value >= b_.value,
+                     ast.Eq: a_.value == b_.value, ast.NotEq: a_.value != b_.value}.get(type(op))
+                if v is not None:
+                    return ast.Constant(value=v)
+            except TypeError:
+                pass
+        return e
+    if isinstance(e, ast.IfExp):
+        t = pe(e.test, env)
+        if isinstance(t, ast.Constant):
+            return pe(e.body if t.value else e.orelse, env)
+        return ast.IfExp(test=t, body=pe(e.body, env), orelse=pe(e.orelse, env))
+    return e
+
+
+def _specialise_templates(c: Ctx, sites: list[TokSite]) -> list[TokSite]:
+    """A token-constructing helper whose kind / tag / nesting depend on its parameters (`_convert(token, tag, nesting, ..)`)
+    is replaced by one site per call, attributed to the caller, with the arguments substituted and folded."""
+    out: list[TokSite] = []
+    for ts in sites:
+        f = ts.func
+        params = [a.arg for a in f.node.args.posonlyargs + f.node.args.args + f.node.args.kwonlyargs]
+        exprs = [ts.type_expr, ts.tag_expr, ts.nesting_expr] + list(ts.stores.values())
+        free = {x.id for e in exprs if e is not None for x in ast.walk(e) if isinstance(x, ast.Name)}
+        is_template = ts.kinds is None and bool(free & set(params)) and f.name not in ("push",)
+        callers = c.cg.callers.get(f, []) if is_template else []
+        if not is_template or not callers:
+            out.append(ts)
+            continue
+        ok_all = True
+        new: list[TokSite] = []
+        for cs in callers:
+            env: dict[str, ast.AST] = {}
+            from .interproc import expand
+            for pn in params:
+                a = c.eff.arg_for_param(cs, f, pn)
+                if a is not None:
+                    env[pn] = expand(c, cs.caller, a, cs.node) if isinstance(a, ast.Name) else a
+            te, ge, ne = pe(ts.type_expr, env), pe(ts.tag_expr, env), pe(ts.nesting_expr, env)
+            kinds = literal_strs(te)
+            if kinds is None:
+                ok_all = False
+                break
+            # an IfExp kind selected by the nesting argument: keep only the feasible branch when nesting is a literal
+            nts = TokSite(cs.caller, cs.node, ts.via, te, ge, ne, kinds, {k: pe(v, env) for k, v in ts.stores.items()}, receiver=ts.receiver)
+            nts.orig_ids = {id(v) for v in ts.stores.values()}
+            if "tag" in nts.stores and nts.tag_expr is None:
+                nts.tag_expr = nts.stores["tag"]
+            if "nesting" in nts.stores and nts.nesting_expr is None:
+                nts.nesting_expr = nts.stores["nesting"]
+            new.append(nts)
+        if ok_all:
+            out.extend(new)
+        else:
+            out.append(ts)
     return out
 
 
